@@ -1013,6 +1013,13 @@ class Machine:
                 r = (a is b) if not (is_z3(a) or is_z3(b)) else False
             elif isinstance(a, Ref) and isinstance(b, Ref):
                 r = a.id == b.id
+            elif is_num(a) and is_num(b):
+                # identity of numbers is implementation defined (CPython caches small ints only): all that is known is
+                # that identical objects are equal; code that relies on more fails its obligations
+                za, zb = coerce_pair(a, b)
+                ident = self.fresh("is_identical", BOOL)
+                self.assume(z3.Implies(ident, za == zb))
+                return ident if isinstance(op, ast.Is) else z3.Not(ident)
             else:
                 raise Unsupported("'is' on values")
             return r if isinstance(op, ast.Is) else not r
